@@ -854,4 +854,73 @@ Section Proofs.
     assert (L : length ids = length l1) by (clear - F1; induction F1; cbn; congruence).
     rewrite L, firstn_app, firstn_all, Nat.sub_diag, firstn_O, app_nil_r. exact F1.
   Qed.
+
+  (* ---------- one name per chunk ---------- *)
+
+  Definition fault_free (w : world) : Prop := forall h o, w_fault w h o = NoFault.
+
+  Lemma raw_fetch_missing k i w :
+    fault_free w -> w_obj w k i = None ->
+    raw_fetch k i w = (NotFound, w_log (OpGet k i) w).
+  Proof. intros F N. unfold raw_fetch. now rewrite F, N. Qed.
+
+  Lemma fault_free_log o w : fault_free w -> fault_free (w_log o w).
+  Proof. intros F h x. apply F. Qed.
+
+  Lemma fetch_retry_missing rm n k i w :
+    fault_free w -> w_obj w k i = None ->
+    exists w', fetch_retry rm n k i w = (NotFound, w') /\ fault_free w' /\ w_obj w' = w_obj w.
+  Proof.
+    revert w. induction n as [|n IH]; intros w F N; cbn [fetch_retry]; rewrite raw_fetch_missing by assumption.
+    - eexists. split; [reflexivity|]. split; [now apply fault_free_log|reflexivity].
+    - destruct rm.
+      + destruct (IH (w_log (OpGet k i) w)) as (w' & E & F' & O); [now apply fault_free_log|exact N|].
+        exists w'. auto.
+      + eexists. split; [reflexivity|]. split; [now apply fault_free_log|reflexivity].
+  Qed.
+
+  Lemma leaf_get_missing k o i w :
+    fault_free w -> w_obj w k i = None ->
+    exists w', leaf_get k o i w = (Err EMissing, w') /\ fault_free w' /\ w_obj w' = w_obj w.
+  Proof.
+    intros F N. unfold ChunkVerify.leaf_get, leaf_fetch.
+    destruct (lo_kind o);
+      try (rewrite raw_fetch_missing by assumption; eexists; split; [reflexivity|];
+           split; [now apply fault_free_log|reflexivity]);
+      match goal with |- context [fetch_retry ?rm ?n k i w] =>
+        destruct (fetch_retry_missing rm n k i w F N) as (w' & E & F' & O); rewrite E; eauto end.
+  Qed.
+
+  (* A leaf looks under the name of its own format only: when that object does not exist the
+     chunk is missing, whatever else the world holds (an object of the other format under the
+     same id is some other slot). *)
+  Theorem leaf_own_name_only k o i w :
+    fault_free w -> w_obj w k i = None -> fst (get (W (WLeaf k o)) i w) = Err EMissing.
+  Proof.
+    intros F N. cbn [ChunkVerify.get ChunkVerify.wget].
+    destruct (leaf_get_missing k o i w F N) as (w' & E & _). now rewrite E.
+  Qed.
+
+  (* If a store does fall back to the other name, what it finds has to go through the
+     verifying constructor: then the result is as good as any other ... *)
+  Theorem fallback_checked_sound k k' o i w :
+    lo_skip o = false -> rgood i (fst (leaf_get_fallback H zdecomp true k k' o i w)).
+  Proof.
+    intros S. unfold leaf_get_fallback.
+    pose proof (leaf_get_good k o i w S) as G.
+    destruct (leaf_get k o i w) as [[c|[]] w1]; cbn [fst] in *; auto.
+    destruct (raw_fetch k' i w1) as [[b| | |p] w2]; cbn [fst]; try exact I.
+    rewrite S. apply ncfs_good.
+  Qed.
+
+  (* ... whereas handing it to NewChunk delivers whatever is stored under that name. *)
+  Theorem fallback_unchecked_delivers_anything k k' o i w b :
+    fault_free w -> w_obj w k i = None -> w_obj w k' i = Some b -> nonempty b = true ->
+    exists c, fst (leaf_get_fallback H zdecomp false k k' o i w) = Ok c /\ data_of c = Some b.
+  Proof.
+    intros F N Hb Nb. unfold leaf_get_fallback.
+    destruct (leaf_get_missing k o i w F N) as (w' & E & F' & O). rewrite E.
+    unfold raw_fetch. rewrite F', O, Hb. cbn [fst]. exists (new_chunk b). split; [reflexivity|].
+    unfold ChunkVerify.data_of, ChunkVerify.chunk_data, new_chunk. cbn [c_data]. now rewrite Nb.
+  Qed.
 End Proofs.
